@@ -1,12 +1,215 @@
-/- Driver family `binser`: C01 C02 — serialize / parse / canonical image.  (stub: replace `family`) -/
+/- Driver family `binser`: C01 C02 — serialize / parse / canonical image.
+Case lines are described in `harness/src/fam/binser.rs`. -/
 import Driver.Common
+import MilaModel.Model.BinArchive
+import MilaModel.Spec.ArchiveImage
 
 namespace Driver.Binser
-open Mila
+open Mila Mila.BinArchive
+open Mila.Spec.Image (Content conformsCheck canonical wordAt StrAt byAddr)
+
+def listField (s : String) : List String := if s == "~" then [] else s.splitOn ","
+
+def pairOf (s : String) : String × String :=
+  match s.splitOn ":" with
+  | [a, b] => (a, b)
+  | [a] => (a, "")
+  | _ => ("", "")
+
+def natOf (s : String) : Nat := s.toNat?.getD 0
+
+def parseStrings (s : String) : List (Nat × Bytes) :=
+  (listField s).map (fun x => let p := pairOf x; (natOf p.1, hexOrBad p.2))
+def parsePointers (s : String) : List (Nat × Nat) :=
+  (listField s).map (fun x => let p := pairOf x; (natOf p.1, natOf p.2))
+def parseLabels (s : String) : List (Nat × List Bytes) :=
+  (listField s).map (fun x => let p := pairOf x
+    (natOf p.1, if p.2.isEmpty then [] else (p.2.splitOn "|").map hexOrBad))
+def parseCStrings (s : String) : List (Bytes × List Nat) :=
+  (listField s).map (fun x => let p := pairOf x; (hexOrBad p.1, (p.2.splitOn "|").map natOf))
+
+def endianOf (s : String) : Endian := if s == "BE" then .big else .little
+
+def joinOrTilde (l : List String) : String := if l.isEmpty then "~" else ",".intercalate l
+
+def fmtStrings (l : List (Nat × Bytes)) : String :=
+  joinOrTilde (l.map (fun p => s!"{p.1}:{hexOfBytes p.2}"))
+def fmtPointers (l : List (Nat × Nat)) : String :=
+  joinOrTilde (l.map (fun p => s!"{p.1}:{p.2}"))
+
+/-- Value of the `key=` field of an output line. -/
+def fieldOf (fs : List String) (key : String) : Option String :=
+  (fs.find? (fun f => f.startsWith (key ++ "="))).map (fun f => (f.drop (key.length + 1)).toString)
+
+/-- The observation the harness prints for an archive (same accessors, same order). -/
+def observe (c : Codec) (b : BinArchive) (cCells : List Nat) : String :=
+  let size := b.size
+  let addrs := (List.range size).filter (fun a => a + 4 ≤ size)
+  let s := addrs.filterMap (fun a => match readString b a with
+    | .ok (some t) => some (a, t) | _ => none)
+  let p := addrs.filterMap (fun a => match readPointer b a with
+    | .ok (some t) => some (a, t) | _ => none)
+  let cs := cCells.map (fun a => match readCString c b a with
+    | .ok (some t) => s!"{a}:{hexOfBytes t}"
+    | .ok none => s!"{a}:none"
+    | .err e => s!"{a}:!{e.name}"
+    | .panic => s!"{a}:!panic")
+  s!"size={size} data={hexOfBytes b.data} S={fmtStrings s} P={fmtPointers p} CS={joinOrTilde cs} L={fmtStrings (allLabels b)}"
+
+def sortNats (l : List Nat) : List Nat := l.mergeSort (fun a b => a ≤ b)
+
+/-! ### model -/
+
+def modelSer (e : Endian) (K : Content) (cstr : List (Bytes × List Nat)) : String :=
+  let a : BinArchive := ⟨K.data, K.strings, K.pointers, K.labels, cstr, e⟩
+  let a' : BinArchive := ⟨K.data, K.strings.reverse, K.pointers.reverse, K.labels.reverse, cstr.reverse, e⟩
+  let r := serialize sjisSub a
+  let cCells : List Nat := sortNats (cstr.flatMap (fun (p : Bytes × List Nat) => p.2))
+  let det := if serialize sjisSub a' = r then "1" else "0"
+  match r with
+  | .err er => s!"err {er.name} det={det}"
+  | .panic => "panic"
+  | .ok img =>
+    let tail := match parse sjisSub e img with
+      | .err er => s!"parse-err {er.name}"
+      | .panic => "parse-panic"
+      | .ok b =>
+        let re := if serialize sjisSub b = Res.ok img then "1" else "0"
+        s!"re={re} {observe sjisSub b cCells}"
+    s!"ok img={hexOfBytes img} det={det} {tail}"
+
+/-- `true` when the byte string contains U+FFFD (what `sjisSub.dec` emits outside its alphabet). -/
+def hasReplacement : Bytes → Bool
+  | 0xEF :: 0xBF :: 0xBD :: _ => true
+  | _ :: rest => hasReplacement rest
+  | [] => false
+
+def foreignText (b : BinArchive) : Bool :=
+  b.text.any (fun p => hasReplacement p.2) || b.labels.any (fun p => p.2.any hasReplacement)
+
+def modelImg (raw : Bool) (e : Endian) (img : Bytes) : String :=
+  match parse sjisSub e img with
+  | .err er => s!"err {er.name}"
+  | .panic => "panic"
+  | .ok b =>
+    if raw && foreignText b then "ok foreign-text" else
+    let re := match serialize sjisSub b with
+      | .ok v => hexOfBytes v
+      | .err er => s!"!{er.name}"
+      | .panic => "!panic"
+    s!"ok re={re} {observe sjisSub b []}"
+
+/-! ### oracle: the specification judged on the implementation's output -/
+
+def expectedLabels (K : Content) : String :=
+  fmtStrings ((K.labels.mergeSort byAddr).flatMap (fun p => p.2.map (fun n => (p.1, n))))
+
+/-- Same bytes outside annotated cells. -/
+def dataAgrees (K : Content) (d : Bytes) : Bool :=
+  d.length == K.data.length &&
+  (List.range K.data.length).all (fun i => decide (K.covered i) || d[i]? == K.data[i]?)
+
+/-- Judgement of the re-parsed observation against the content `K` (c-string cells listed). -/
+def judgeObservation (K : Content) (cexp : List (Nat × Bytes)) (impl : List String) : Option String :=
+  let get := fun k => (fieldOf impl k).getD "?"
+  if get "size" != toString K.data.length then some "re-parsed size differs" else
+  if ¬ dataAgrees K (hexOrBad (get "data")) then some "re-parsed raw bytes differ outside pointer cells" else
+  if get "S" != fmtStrings (K.strings.mergeSort byAddr) then some "re-parsed strings differ" else
+  if get "P" != fmtPointers (K.pointers.mergeSort byAddr) then some "re-parsed pointers differ" else
+  if get "CS" != fmtStrings (cexp.mergeSort byAddr) then some "re-parsed c-strings differ" else
+  if get "L" != expectedLabels K then some "re-parsed labels differ (per-address order)" else none
+
+def enc := sjisSub.enc
+
+/-- Every string of the case is encodable (the property's domain). -/
+def inDomain (K : Content) (cstr : List (Bytes × List Nat)) : Bool :=
+  K.strings.all (fun p => (enc p.2).isSome) && K.labels.all (fun p => p.2.all (fun n => (enc n).isSome))
+    && cstr.all (fun p => (enc p.1).isSome)
+
+def oracleSer (e : Endian) (K : Content) (cstr : List (Bytes × List Nat)) (impl : List String) : String :=
+  if !inDomain K cstr then
+    (if impl.getD 1 "" == "panic" then "FAIL panic" else "ok skip (unencodable string)") else
+  if impl.getD 1 "" != "ok" then "FAIL serialize did not succeed on an in-domain archive" else
+  match (fieldOf impl "img").bind bytesOfHex with
+  | none => "FAIL no image"
+  | some img =>
+    if fieldOf impl "det" != some "1" then "FAIL serialization is not deterministic (images differ between call orders / hash states)" else
+    if impl.contains "parse-err" then "FAIL from_bytes rejects the serialized image" else
+    match wordAt e img 4 with
+    | none => "FAIL image shorter than a header"
+    | some d =>
+      if d < K.data.length ∨ 0x20 + d > img.length then "FAIL header data size" else
+      let region := (img.drop 0x20).take d
+      let pool := region.drop K.data.length
+      if cstr.isEmpty ∧ d ≠ K.data.length then "FAIL data grew without c-strings" else
+      if K.data.length % 4 = 0 ∧ d % 4 ≠ 0 then "FAIL tables not word-aligned although the data is" else
+      -- every c-string cell points into the pool, at its NUL-terminated encoding
+      let cuses := cstr.flatMap (fun p => p.2.map (fun a => (a, p.1)))
+      let cptrs := cuses.map (fun u => (u.1, (wordAt e img (0x20 + u.1)).getD 0))
+      let cok := cuses.all (fun u =>
+        match wordAt e img (0x20 + u.1), enc u.2 with
+        | some p, some b => decide (K.data.length ≤ p) && decide (StrAt region p b)
+        | _, _ => false)
+      if ¬ cok then "FAIL c-string cell does not point at its string inside the pool" else
+      let K' : Content := ⟨K.data ++ pool, K.strings, K.pointers ++ cptrs, K.labels⟩
+      match conformsCheck enc e img K' with
+      | some why => "FAIL image does not conform: " ++ why
+      | none =>
+        if cstr.isEmpty ∧ img ≠ canonical enc e K then "FAIL image is not the canonical image" else
+        if fieldOf impl "re" != some "1" then "FAIL parse then serialize does not reproduce the image" else
+        match judgeObservation K' cuses impl with
+        | some why => "FAIL " ++ why
+        | none => "ok"
+
+def oracleImg (e : Endian) (img : Bytes) (K : Content) (impl : List String) : String :=
+  match conformsCheck enc e img K with
+  | some why => "FAIL spec-side generator produced a non-conforming image: " ++ why
+  | none =>
+    if impl.getD 1 "" != "ok" then "FAIL from_bytes rejects a conforming image" else
+    match judgeObservation K [] impl with
+    | some why => "FAIL " ++ why
+    | none =>
+      if fieldOf impl "re" != some (hexOfBytes (canonical enc e K)) then
+        "FAIL re-serialized image is not the canonical image of the content"
+      else "ok"
+
+def faithfulExpected : String := "ok encodable=7520 lossy=a5,203e,2212 nul=0 disjoint=1"
 
 def family : Family where
   State := Unit
   init := ()
-  step := fun _ _ _ => ((), "unimplemented", "FAIL unimplemented")
+  step := fun _ c i =>
+    match c with
+    | [_, "codec", s] =>
+      let s := hexOrBad s
+      let m := match sjisSub.enc s with
+        | none => "err Encoding"
+        | some b => s!"ok {hexOfBytes b} {hexOfBytes (sjisSub.dec b)}"
+      ((), m, if i.getD 1 "" == "ok" && i.getD 3 "" == hexOfBytes s then "ok"
+              else "FAIL the codec does not represent the string losslessly")
+    | [_, "decode", b] => ((), s!"ok {hexOfBytes (sjisSub.dec (hexOrBad b))}", "ok")
+    | [_, "faithful"] =>
+      ((), faithfulExpected,
+        if " ".intercalate (i.drop 1) == faithfulExpected then "ok"
+        else "FAIL the Faithful assumption on Shift-JIS no longer holds")
+    | [_, "ser", e, d, s, p, l, cs] =>
+      let K : Content := ⟨hexOrBad d, parseStrings s, parsePointers p, parseLabels l⟩
+      let cstr := parseCStrings cs
+      ((), modelSer (endianOf e) K cstr, oracleSer (endianOf e) K cstr i)
+    | [_, "serp", e, d, s, p, l, cs] =>
+      let K : Content := ⟨hexOrBad d, parseStrings s, parsePointers p, parseLabels l⟩
+      let cstr := parseCStrings cs
+      let o := oracleSer (endianOf e) K cstr i
+      ((), modelSer (endianOf e) K cstr ++ " procs=1",
+        if o != "ok" then o
+        else if fieldOf i "procs" != some "1" then
+          "FAIL serialization differs between fresh processes (per-process hash seeds)"
+        else "ok")
+    | [_, "img", e, img, d, s, p, l] =>
+      let K : Content := ⟨hexOrBad d, parseStrings s, parsePointers p, parseLabels l⟩
+      let img := hexOrBad img
+      ((), modelImg false (endianOf e) img, oracleImg (endianOf e) img K i)
+    | [_, "raw", e, img] => ((), modelImg true (endianOf e) (hexOrBad img), "ok skip")
+    | _ => ((), "bad-case", "FAIL bad-case")
 
 end Driver.Binser
